@@ -127,9 +127,11 @@ Inductive call :=
 | CreateTime (o : nat)
 | BootTime                      (* psutil.boot_time() *)
 | ProcIter                      (* list(psutil.process_iter()) *)
-| Wait (o : nat)                (* o.wait(timeout=0) -- the process is not a child of the caller *)
+| Wait (o : nat) (vis : bool)   (* o.wait(timeout=0) -- the process is not a child of the caller; [vis]: os.kill(pid, 0)
+                                   in the caller's PID namespace sees the PID (false: procfs is a foreign one) *)
 | IterStart                     (* g = psutil.process_iter(): a generator the caller keeps *)
-| IterNext (g : nat).           (* next(g) *)
+| IterNext (g : nat)            (* next(g) *)
+| WaitProcs (o : nat) (vis : bool).  (* psutil.wait_procs([o], timeout=0): is o reported gone? *)
 
 Inductive res :=
 | RNone | RBool (b : bool) | RInt (n : Z) | RObj (i : nat) | RObjs (l : list nat)
@@ -433,10 +435,25 @@ Definition proc_iter_nostale (m : mstate) : mstate * outcome res :=
 
 (* Process.wait(timeout=0) for a process that is not our child (_psposix.wait_pid polls pid_exists):
    still there (zombie included) -> TimeoutExpired; gone -> None, cached in _exitcode *)
-Definition do_wait (x : pobj) : pobj * outcome res :=
-  if oexit x then (x, Val RNone)
-  else if kexists (opid x) then (x, Exc TimeoutExpired)
-  else (with_exit true x, Val RNone).
+Definition do_wait (x : pobj) (vis : bool) : pobj * outcome res :=
+  if oexit x then (x, Val RNone)                          (* Process.wait: _exitcode cached *)
+  else if opid x <=? 0 then (x, Exc ValueError)           (* wait_pid: "can't wait for PID 0" *)
+  else if vis && kexists (opid x) then (x, Exc TimeoutExpired)   (* ECHILD, pid_exists() true, timeout 0 *)
+  else (with_exit true x, Val RNone).                     (* ECHILD, pid_exists() false: None, cached *)
+
+(* psutil.wait_procs([x], timeout=0): set([x]) hashes x; check_gone(x, 0): wait(), and when that returns None,
+   "not x.is_running()" decides *)
+Definition do_wait_procs (x : pobj) (vis : bool) : pobj * outcome res * list Z :=
+  let '(x0, _) := do_hash x in
+  let '(x1, r) := do_wait x0 vis in
+  match r with
+  | Exc TimeoutExpired => (x1, Val (RBool false), [])
+  | Exc e => (x1, Exc e, [])
+  | OutOfModel => (x1, OutOfModel, [])
+  | Val _ =>
+    let '(x2, r2, add) := is_running x1 in
+    (x2, match r2 with Val b => Val (RBool (negb b)) | Exc e => Exc e | OutOfModel => OutOfModel end, add)
+  end.
 
 (* one resumption of a process_iter() generator: walk the list until something is yielded.
    result: rest of the list, objects, local pmap, Val (Some i) = yielded object i / Val None = exhausted *)
@@ -612,13 +629,20 @@ Definition mcall (m : mstate) (c : call) : mstate * outcome res * list sysc :=
     end
   | BootTime => let '(m1, b) := do_boot_time m in (m1, Val (RInt b), [])
   | ProcIter => let '(m1, r) := proc_iter m in (m1, r, [])
-  | Wait o =>
+  | Wait o vis =>
     match nth_error (objs m) o with
     | None => (m, OutOfModel, [])
-    | Some x => let '(x1, r) := do_wait x in (with_objs (upd_nth o x1 (objs m)) m, r, [])
+    | Some x => let '(x1, r) := do_wait x vis in (with_objs (upd_nth o x1 (objs m)) m, r, [])
     end
   | IterStart => (with_gens (gens m ++ [gen0]) m, Val (RGen (length (gens m))), [])
   | IterNext g => let '(m1, r) := iter_next m g in (m1, r, [])
+  | WaitProcs o vis =>
+    match nth_error (objs m) o with
+    | None => (m, OutOfModel, [])
+    | Some x =>
+      let '(x1, r, add) := do_wait_procs x vis in
+      (with_reusedset (reused m ++ add) (with_objs (upd_nth o x1 (objs m)) m), r, [])
+    end
   end.
 
 End WithKernel.
